@@ -46,12 +46,22 @@ pub struct Session {
     pub close_early: bool,
     /// the service behind org.verif.test writes its JSON with blanks after `:` and `,`
     pub spaced: bool,
+    /// (with close_early) the last request is one the service answers only after 300 ms, so the
+    /// client's hang-up reaches the bridge while it is waiting for a reply
+    pub slow_tail: bool,
+    /// after all replies have arrived the client sends one more request (answered after 400 ms) and
+    /// hangs up altogether - stdin and stdout - while the bridge waits for that reply
+    pub hangup_while_waiting: bool,
+}
+
+fn slow_request(ms: u64) -> Value {
+    json!({"method": "org.verif.test.Slow", "parameters": {"token": "slow-tail", "ms": ms}})
 }
 
 fn sess_json(s: &Session) -> Value {
     json!({"mode": format!("{:?}", s.mode), "requests": syms_json(&s.syms), "pipelined": s.pipelined,
         "upgrade_payload_hex": s.upgrade.as_ref().map(|p| p.iter().map(|b| format!("{:02x}", b)).collect::<String>()),
-        "payload_pipelined": s.payload_pipelined, "close_early": s.close_early, "spaced_service": s.spaced})
+        "payload_pipelined": s.payload_pipelined, "close_early": s.close_early, "spaced_service": s.spaced, "slow_tail": s.slow_tail, "hangup_while_waiting": s.hangup_while_waiting})
 }
 
 fn sess_from(v: &Value) -> Session {
@@ -69,6 +79,8 @@ fn sess_from(v: &Value) -> Session {
         payload_pipelined: v["payload_pipelined"].as_bool().unwrap_or(false),
         close_early: v["close_early"].as_bool().unwrap_or(false),
         spaced: v["spaced_service"].as_bool().unwrap_or(false),
+        slow_tail: v["slow_tail"].as_bool().unwrap_or(false),
+        hangup_while_waiting: v["hangup_while_waiting"].as_bool().unwrap_or(false),
     }
 }
 
@@ -132,6 +144,9 @@ pub fn reference(w: &World, s: &Session) -> Result<(Vec<u8>, Vec<u8>), Fail> {
     if s.upgrade.is_some() {
         reqs.push(upgrade_request(reqs.len()));
     }
+    if s.slow_tail {
+        reqs.push(slow_request(0));
+    }
     let echo: Vec<u8> = s.upgrade.as_ref().map(|p| p.iter().map(|b| b.to_ascii_uppercase()).collect()).unwrap_or_default();
     let mut out = vec![];
     match s.mode {
@@ -177,15 +192,31 @@ pub fn reference(w: &World, s: &Session) -> Result<(Vec<u8>, Vec<u8>), Fail> {
 /// stdout collector of the bridge process
 struct Out {
     st: Arc<(Mutex<(Vec<u8>, bool)>, Condvar)>,
+    /// tells the reader thread to let go of the pipe (the client hangs up altogether)
+    hangup: Arc<std::sync::atomic::AtomicBool>,
 }
 
 impl Out {
     fn new(mut so: std::process::ChildStdout) -> Out {
         let st: Arc<(Mutex<(Vec<u8>, bool)>, Condvar)> = Arc::new((Mutex::new((vec![], false)), Condvar::new()));
         let s2 = st.clone();
+        let hangup = Arc::new(std::sync::atomic::AtomicBool::new(false));
+        let h2 = hangup.clone();
         std::thread::spawn(move || {
+            use std::os::unix::io::AsRawFd;
             let mut buf = [0u8; 8192];
             loop {
+                // wait for data in slices, so that a hang-up request is honoured while nothing arrives
+                let mut pfd = libc::pollfd { fd: so.as_raw_fd(), events: libc::POLLIN, revents: 0 };
+                let r = unsafe { libc::poll(&mut pfd, 1, 10) };
+                if h2.load(std::sync::atomic::Ordering::SeqCst) {
+                    s2.0.lock().unwrap().1 = true;
+                    s2.1.notify_all();
+                    break; // `so` is dropped: the read end of the bridge's stdout is closed
+                }
+                if r == 0 {
+                    continue;
+                }
                 match so.read(&mut buf) {
                     Ok(0) | Err(_) => {
                         s2.0.lock().unwrap().1 = true;
@@ -199,7 +230,12 @@ impl Out {
                 }
             }
         });
-        Out { st }
+        Out { st, hangup }
+    }
+    /// close our end of the bridge's stdout
+    fn hang_up(&self) {
+        self.hangup.store(true, std::sync::atomic::Ordering::SeqCst);
+        let _ = self.wait_eof(Duration::from_secs(2));
     }
     /// wait until at least `n` bytes arrived or EOF; false on timeout
     fn wait_len(&self, n: usize, t: Duration) -> bool {
@@ -289,6 +325,9 @@ pub fn run_session(w: &World, s: &Session) -> Result<Outcome, Fail> {
     if s.upgrade.is_some() {
         reqs.push(upgrade_request(reqs.len()));
     }
+    if s.slow_tail {
+        reqs.push(slow_request(300));
+    }
     let patience = Duration::from_secs(10);
     let mut slow: Option<String> = None;
     if s.pipelined {
@@ -341,7 +380,15 @@ pub fn run_session(w: &World, s: &Session) -> Result<Outcome, Fail> {
             }
         }
     }
-    drop(stdin); // the client closes its side
+    if s.hangup_while_waiting && slow.is_none() {
+        let _ = stdin.write_all(&encode(&slow_request(400), Style::Compact));
+        let _ = stdin.flush();
+        std::thread::sleep(Duration::from_millis(80));
+        drop(stdin);
+        out.hang_up();
+    } else {
+        drop(stdin); // the client closes its side
+    }
     let exited = {
         let t0 = Instant::now();
         loop {
@@ -371,6 +418,19 @@ pub fn run_session(w: &World, s: &Session) -> Result<Outcome, Fail> {
     let mut full = want.clone();
     full.extend_from_slice(&echo);
     let tag = format!("{:?}", s.mode).to_lowercase();
+    if s.hangup_while_waiting {
+        // everything before the last request had arrived; of the last reply nothing need arrive
+        if !(got.starts_with(&full) || full.starts_with(&got)) || got.len() < full.len() {
+            return Err(diff_fail(&tag, &got, &full, &stderr_text, Some("client hung up while the bridge waited for a further reply")));
+        }
+        if !status.success() {
+            return Err(Fail::new(
+                format!("bridge[{}]/exit-status-after-hangup", tag),
+                format!("the client hung up while the bridge was waiting for a reply (nothing left to forward): bridge exited with {:?}; stderr: {}", status.code(), stderr_text.trim()),
+            ));
+        }
+        return Ok(Outcome::Ok);
+    }
     if s.close_early {
         if !full.starts_with(&got) {
             return Err(Fail::new(
@@ -492,8 +552,10 @@ fn session_strategy() -> impl Strategy<Value = Session> {
         prop::bool::weighted(0.2),
         prop::bool::weighted(0.15),
         prop::bool::weighted(0.3),
+        prop::bool::weighted(0.5),
+        prop::bool::weighted(0.12),
     )
-        .prop_map(move |(mode, ix, pipelined, upgrade, payload_pipelined, close_early, spaced)| {
+        .prop_map(move |(mode, ix, pipelined, upgrade, payload_pipelined, close_early, spaced, slow_tail, hangup)| {
             let mut syms: Vec<Sym> = ix.iter().map(|(a, b)| if mode == Mode::Resolver { ra[*a] } else { ca[*b] }).collect();
             if matches!(mode, Mode::Activate | Mode::InnerBridge) {
                 // another service instance lists its interfaces in another order: GetInfo bytes
@@ -506,7 +568,10 @@ fn session_strategy() -> impl Strategy<Value = Session> {
             }
             // the activated / inner-bridge targets are separate (compact) instances
             let spaced = spaced && matches!(mode, Mode::Resolver | Mode::Connect);
-            let mut s = Session { mode, syms, pipelined, upgrade, payload_pipelined, close_early, spaced };
+            let slow_tail = slow_tail && close_early;
+            let hangup_while_waiting = hangup && !close_early;
+            let upgrade = if hangup_while_waiting { None } else { upgrade };
+            let mut s = Session { mode, syms, pipelined, upgrade, payload_pipelined, close_early, spaced, slow_tail, hangup_while_waiting };
             if s.syms.is_empty() && s.upgrade.is_none() {
                 s.syms.push(Sym { kind: Kind::Echo, flag: Flag::None });
             }
@@ -585,6 +650,8 @@ pub fn run(args: &Args) -> ! {
                 payload_pipelined: false,
                 close_early: false,
                 spaced,
+                slow_tail: false,
+                hangup_while_waiting: false,
             };
             ctx.case(Some(hash64(&sess_json(&s).to_string())));
             ctx.class(&format!("fixed:{:?}{}", mode, if spaced { "(spaced-JSON service)" } else { "" }));
@@ -611,6 +678,12 @@ pub fn run(args: &Args) -> ! {
         }
         if s.spaced {
             ctx.class("service-writes-spaced-JSON");
+        }
+        if s.slow_tail {
+            ctx.class("close-while-the-bridge-waits-for-a-reply");
+        }
+        if s.hangup_while_waiting {
+            ctx.class("full-hang-up-while-the-bridge-waits-for-a-reply");
         }
         ctx.sample(|| sess_json(s));
         let t0 = Instant::now();
